@@ -8,7 +8,7 @@ def job_moments(res, n, fptype, dt, pmax):
     (and, for the 4-point stencil, away from the rows where the stencil switches sides).  Exact recurrences for M0, M1, M2."""
     bld = maps_build(); mod = load_module(bld, MAPS_MODS)
     pmin = -6.0
-    snap, R, pre = maps_world(bld, n, 1, 4, pmin=pmin, pmax=pmax)
+    snap, R, pre = maps_world(bld, n, 1, 4, pmin=pmin, pmax=pmax, qmin=-4.0, qmax=8.0)      # position axis shifted differently: its zero bin lies two rows away from the energy axis' one
     validate(res, mod, snap, pre)
     ex = Exec(mod, snap, RealDom()); st = State()
     e1 = z3.Real('e1'); st.pc += [e1 > 0, e1 <= Fraction(1, 4)]
@@ -67,7 +67,7 @@ def replayer(bld):
     def rp(path, c):
         n = c['n']; data = [0.0] * (n * n)
         for y, v in enumerate(c['col_data']): data[c['col'] * n + y] = float(v)
-        o = native_run(bld, {'what': 'fp', 'n': n, 'nb': 1, 'it': 4, 'seed': 7, 'fptype': c['fptype'], 'dt': c['dt'], 'e1': float(c['e1']), 'pmax': c['pmax'], 'data': data}, 'c04')
+        o = native_run(bld, {'what': 'fp', 'n': n, 'nb': 1, 'it': 4, 'seed': 7, 'fptype': c['fptype'], 'dt': c['dt'], 'e1': float(c['e1']), 'pmax': c['pmax'], 'pmin': -6.0, 'qmin': -4.0, 'qmax': 8.0, 'data': data}, 'c04')
         pmin = -6.0; dl = (c['pmax'] - pmin) / (n - 1); p = [pmin + y * dl for y in range(n)]; x = c['col']; e1 = float(c['e1'])
         def mom(arr, d): return sum(arr[x * n + y] * p[y] ** d for y in range(n))
         m = [mom(o['in'], d) for d in range(3)]; g = [mom(o['out'], d) for d in range(3)]
